@@ -28,8 +28,8 @@ def main():
     for p in props:
       c = subprocess.run([os.path.join(ROOT, 'check'), p, '--tier', 'quick', '--repo', scratch, '--evidence-dir', ev],
                          capture_output=True, text=True)
-      lines = [l for l in c.stdout.splitlines() if l.startswith(('VIOLATION', '  R-', 'ANALYSIS', '  ')) and 'auto_activate' not in l]
-      if c.returncode != 0:
+      lines = [l for l in c.stdout.splitlines() if l.startswith(('VIOLATION', '  R-', 'ANALYSIS', 'NOT-DECIDED', '  ')) and 'auto_activate' not in l]
+      if c.returncode != 0 or 'NOT-DECIDED' in c.stdout:
         fired.append(p)
         print(f'== {p}: exit {c.returncode}')
         for l in lines[:8]:
